@@ -543,7 +543,10 @@ class DataElementConverter(XMLSchemaConverter):
         if (xsd_type or xsd_element.type).model_group is not None:
             for name, value, _ in self.map_content(data.content):
                 if not name.isdigit():
-                    data_element.append(value)
+                    if isinstance(value, DataElement):
+                        data_element.append(value)
+                    # else: a depth filler (max_depth reached or lazy resource), that
+                    # is not a data element and can't be a child of a data element.
                 else:
                     try:
                         data_element[-1].tail = value
